@@ -180,5 +180,13 @@ def stepX [Zero α] (round : α → α) (m : Mat α) : XOp → ResX α
     let m1 := if dDiff then m.mapVal round else m
     .ok (if iDiff then m1.mapIdx fun a => narrow32 (narrow32 a) else m1) none
 
+/-- the one crash class of the extension operations in the code as it is: the graph rebuild of an entry-free CSR matrix
+    with rows (open finding D5, like `Op.graph`) -/
+def crashesX (m : Mat α) : XOp → Bool
+  | .graphz => match m with
+    | .csr A => A.usedElements == 0 && decide (0 < A.rows)
+    | _ => false
+  | _ => false
+
 end Mat
 end FeatModel.LA
